@@ -5,17 +5,18 @@
          build a REF_GRID through the public API (NS node slots, `-` = slot removed again), set
          meshb_version=V, call ref_export_by_extension("*.meshb")            -> ok HEX | <status>
      read_meshb HEX        ref_import_meshb (static, white-box include)     -> ok <dump> | <status>
-     translate_meshb HEX   ref_import_by_extension + ref_export_by_extension (what `ref translate` does)
-                                                                            -> ok | <status>
+     rt_meshb ...          same arguments as write_meshb: export, then ref_import_meshb of that file -> ok <dump>
      write_solb V TWOD NN {GLOBAL}*NN LDIM {X}*(NN*LDIM)   ref_gather_scalar_by_extension(".solb") -> ok HEX
      write_metric V TWOD NN {GLOBAL}*NN {M}*(NN*6)         ref_gather_metric(".solb")              -> ok HEX
      read_solb NN HEX      grid with NN nodes (global i = local i), ref_part_scalar(".solb")
                                                                             -> ok LDIM {X}*(NN*LDIM) | <status>
      read_metric NN HEX    same grid, ref_part_metric(".solb")               -> ok {M}*(NN*6) | <status>
-     robust_KIND ...       as read_KIND / translate_meshb but prints only `returned` when the reader came
+     robust_KIND ...       as read_KIND, or (robust_translate HEX) ref_import_by_extension +
+                           ref_export_by_extension like `ref translate`; prints only `returned` when the reader came
                            back with any status (the C20 oracle)
    Every reader op runs in a forked child with alarm(); a child that dies prints `crash <why>`, one that
-   is still running after the limit prints `timeout`.  refine's own diagnostics on stdout go to /dev/null.
+   is still running after the limit prints `timeout`; a robust_ op whose child touched more than 300 MB
+   prints `bloat`.  refine's own diagnostics on stdout go to /dev/null.
    argv[1] = per-op time limit in seconds (default 4).
 */
 #include "h_proto.h"
@@ -23,6 +24,7 @@
 #include <errno.h>
 #include <signal.h>
 #include <sys/resource.h>
+#include <sys/time.h>
 #include <sys/types.h>
 #include <sys/wait.h>
 #include <unistd.h>
@@ -48,6 +50,7 @@ const char *__asan_default_options(void) {
 #define H_ASAN 0
 #endif
 
+#define BLOAT_KB (300L * 1024L)
 static FILE *out;
 static REF_MPI mpi;
 static int limit_s = 4;
@@ -174,8 +177,9 @@ static int is_f(const char *s) {
 
 /* ---------------------------------------------------------------- writers (in process) */
 
-static void op_write_meshb(void) {
-  REF_GRID grid = NULL;
+static void dump_grid(REF_GRID grid);
+static void op_write_meshb(int roundtrip) {
+  REF_GRID grid = NULL, back = NULL;
   REF_NODE node;
   REF_GEOM geom;
   int k = 1, i, ns, nlive = 0;
@@ -279,6 +283,12 @@ static void op_write_meshb(void) {
   }
   s = ref_export_by_extension(grid, tmp_out);
   if (REF_SUCCESS != s) ST(s);
+  if (roundtrip) {
+    s = ref_import_meshb(&back, mpi, tmp_out);
+    if (REF_SUCCESS != s) ST(s);
+    dump_grid(back);
+    goto done;
+  }
   bytes = slurp(tmp_out, &nb);
   if (!bytes) BAD;
   ob_put("ok ");
@@ -288,6 +298,7 @@ done:
   free(live);
   unlink(tmp_out);
   if (grid) ref_grid_free(grid);
+  if (back) ref_grid_free(back);
 }
 
 /* NN nodes, local i has global GLOBAL_i (a permutation of 0..NN-1); k points at the first GLOBAL */
@@ -471,6 +482,7 @@ static const char *signame(int sig) {
 
 static void op_read(int kind, int robust) {
   int fd[2], status = 0, nn = 0, hexarg = 1;
+  struct rusage ru;
   pid_t pid;
   unsigned char *bytes;
   size_t nb = 0;
@@ -517,7 +529,7 @@ static void op_read(int kind, int robust) {
     }
     close(fd[0]);
   }
-  if (pid < 0 || waitpid(pid, &status, 0) < 0) { ob_reset(); ob_put("bad-op"); return; }
+  if (pid < 0 || wait4(pid, &status, 0, &ru) < 0) { ob_reset(); ob_put("bad-op"); return; }
   unlink(tmp_in);
   unlink(tmp_out);
   if (WIFSIGNALED(status)) {
@@ -530,7 +542,9 @@ static void op_read(int kind, int robust) {
     ob_put(99 == c ? "crash asan" : 98 == c ? "crash ubsan" : "crash exit");
   } else if (robust) {
     ob_reset();
-    ob_put("returned");
+    /* peak resident set of the child in kB: a small file must not make the reader touch this much */
+    if (ru.ru_maxrss > BLOAT_KB) ob_put("bloat");
+    else ob_put("returned");
   }
 }
 
@@ -548,11 +562,11 @@ int main(int argc, char **argv) {
     int solb = (NULL != strstr(op, "solb") || NULL != strstr(op, "metric"));
     snprintf(tmp_in, sizeof tmp_in, "hc_%ld_in.%s", (long)getpid(), solb ? "solb" : "meshb");
     snprintf(tmp_out, sizeof tmp_out, "hc_%ld_out.%s", (long)getpid(), solb ? "solb" : "meshb");
-    if (0 == strcmp(op, "write_meshb")) op_write_meshb();
+    if (0 == strcmp(op, "write_meshb")) op_write_meshb(0);
+    else if (0 == strcmp(op, "rt_meshb")) op_write_meshb(1);
     else if (0 == strcmp(op, "write_solb")) op_write_field(0);
     else if (0 == strcmp(op, "write_metric")) op_write_field(1);
     else if (0 == strcmp(op, "read_meshb")) op_read(0, 0);
-    else if (0 == strcmp(op, "translate_meshb")) op_read(1, 0);
     else if (0 == strcmp(op, "read_solb")) op_read(2, 0);
     else if (0 == strcmp(op, "read_metric")) op_read(3, 0);
     else if (0 == strcmp(op, "robust_meshb")) op_read(0, 1);
